@@ -20,7 +20,7 @@ PROPERTY = "C06"
 RULE = ("unit = one underdetermined system; paths = range_of_solutions calls per target / n / error mode; non-trivial = in-gamut targets with a "
         "solution polytope of positive dimension (min < max for some source) or decided outside targets; distinct by (system, target, n, mode)")
 ASSUMPTIONS = ["delta = 1e-6 x extent separates interior / boundary / outside targets", "spaced solutions: n in 2..10 for one surplus source, n in {2,3} for 2-3 surplus sources (cost n^surplus)"]
-BOUNDS = {"quick": "shapes 2x3 2x4 3x4 3x5 4x5 4x6 (+2x5 3x6), bounds x K x baseline with <= 2 deviations", "thorough": "all 2-4 receptors x 1-3 surplus, full cross"}
+BOUNDS = {"quick": "shapes 2x3 2x4 3x4 3x5 4x5 4x6 (+2x5 3x6), bounds x K x baseline with <= 2 deviations; the plain systems again in capture units x1e-3, x1e-5, x1e3", "thorough": "all 2-4 receptors x 1-3 surplus, full cross"}
 CAP_S = {"quick": 600, "thorough": 5400}
 TECHNIQUE = "all underdetermined systems of the menu x geometric target lattice x n x error mode; extents compared with exhaustive vertex enumeration of the solution polytope"
 LEVEL_TEXT = ("every enumerated target is sent through ReceptorEstimator.range_of_solutions / dreye.range_of_solutions; minima, maxima and every spaced solution are decided against the "
